@@ -4,7 +4,7 @@
    duplicate-free suffix-ordered n-grams with adjusted count and pruning mark (KNSpec.v); kn_spec = table followed by
    discounts, uninterpolated probabilities, gammas and interpolation over exact rationals. *)
 From Coq Require Import List NArith ZArith QArith Bool.
-From Kenlm Require Import C05.KNDefs C05.KNSpec C05.KNModel C05.KNWitness C05.KNLex C05.KNAdjustD C05.KNAdjustF C05.KNNgramSet C06.GoodTable C05.KNPipeline C05.CollapseModel C05.CollapseProofs C05.CollapseCover C05.MergeCombine.
+From Kenlm Require Import C05.KNDefs C05.KNSpec C05.KNModel C05.KNWitness C05.KNLex C05.KNAdjustD C05.KNAdjustF C05.KNNgramSet C06.GoodTable C05.KNPipeline C05.CollapseModel C05.CollapseProofs C05.CollapseCover C05.MergeCombine C05.KNDiscount.
 Import ListNotations.
 
 (* F1, the unrepaired final flush (fix_stat = false): there is a corpus on which the counts-of-counts collected by the
@@ -78,3 +78,15 @@ Proof. exact collapse_accesses_cover. Qed.
 Theorem C05_merge_runs_any_blocks : forall n (blocks : list (list gram)),
   merge_runs (map (sorted_counts n) blocks) = sorted_counts n (concat blocks).
 Proof. exact merge_runs_blocks. Qed.
+
+(* The discounts of an order (StatCollector::CalculateDiscounts): the Chen-Goodman closed form is used exactly when
+   n1, n2, n3 > 0 and every D_j lies in the CLOSED interval [0, j] (discount_ok d j := 0 <= d <= j: D_j = 0 and
+   D_3 = 3 are legal); in every other case the user's fallback, and a refusal when there is none. *)
+Theorem C05_closed_form_iff_in_range : forall fb s,
+  (cf_exists s -> order_discount fb s = Some (Qred (cf_d1 s), Qred (cf_d2 s), Qred (cf_d3 s))) /\
+  (~ cf_exists s -> order_discount fb s = fb).
+Proof. exact order_discount_spec. Qed.
+
+(* boundary witnesses: counts of counts 2,3,8,1 have D2 = 0 exactly and the closed form is used *)
+Theorem C05_discount_zero_is_legal : closed_form (mkS 2 3 8 1 20 20) = Some (1 # 4, 0, 23 # 8).
+Proof. exact boundary_zero_accepted. Qed.
